@@ -75,8 +75,11 @@ def run(ctx):
     cov = collections.Counter()
     first = True
     total = collections.Counter()
-    for cfg, num, depth, keep in [(ctx.q("c08_repo_sim_merge_quick.cfg", "c08_repo_sim_merge_thorough.cfg"), ctx.q(220, 2500), ctx.q(36, 50), ctx.q(16, 400)),
-                                  (ctx.q("c08_repo_sim_ws_quick.cfg", "c08_repo_sim_ws_thorough.cfg"), ctx.q(160, 2000), ctx.q(34, 48), ctx.q(10, 300))]:
+    only = set(filter(None, os.environ.get("BK_ONLY", "").split(",")))   # developer knob for mutation runs: repo, rich
+    if only:
+        ctx.notes.append("BK_ONLY=%s: only these parts were run (mutation run)" % ",".join(sorted(only)))
+    for cfg, num, depth, keep in [] if only and "repo" not in only else [(ctx.q("c08_repo_sim_merge_quick.cfg", "c08_repo_sim_merge_thorough.cfg"), ctx.q(40, 800), ctx.q(36, 50), ctx.q(10, 140)),
+                                  (ctx.q("c08_repo_sim_ws_quick.cfg", "c08_repo_sim_ws_thorough.cfg"), ctx.q(32, 600), ctx.q(34, 48), ctx.q(6, 100))]:
         beh = ctx.tlc_behaviours("RepoGC.tla", cfg, num=num, depth=depth, seed=ctx.seed + 1000, timeout=ctx.q(1800, 3 * 3600))
         beh = bk.dedupe_prefix(beh, lambda b: b["steps"])
         beh = bk.select(beh, bk.repo_score, keep)
@@ -104,5 +107,5 @@ def run(ctx):
     ctx.cov["coverage_table"] = dict(sorted(cov.items()))
     ctx.sample({"coverage_table (kind.field -> chunks in which it was non-empty / objects touched)": dict(sorted(cov.items()))})
     missing = [p for p in REQUIRED if cov.get(p, 0) == 0]
-    if missing and not ctx.violations:
+    if missing and not ctx.violations and not only:
         raise vlib.Inconclusive("coverage: required (kind, field) pairs never populated: %s" % missing)
